@@ -27,7 +27,7 @@ CLAIMED = {
   "the final message is under contract too: in parse() the error is added only when no other error was recorded, at the farthest position, and its expected list is proved (loop invariants over the dedupe map and the arbitrary-order map range, sort.Strings modelled as a sorted permutation) to contain exactly the recorded terminals, sorted, without duplicates, with '!.' shown last as EOF. The farthest position is proved to be the position OF its offset (line and column included) except for known finding F8 (input starting with a newline, farthest failure at offset 0). That the record holds the GLOBAL maximum over the whole run is the induction over the run (meta), and it assumes that every derivation step is evaluated: with Memoize(true) a memo hit replays no failure events and the message can differ (defect F14, DESIGN 16.3, documented, no obligation); the claim is for Memoize(false)."),
  "C14": ("proof", "§7 C14",
   "pushRecovery installs exactly the listed labels bound to the recovery expression; parseRecoveryExpr keeps them in force exactly during the guarded call; parseThrowExpr is verified against the inductive judgement TH (innermost handler first, failed recovery expressions are skipped, no handler = failure without consumption); handler maps in force are never written by any parse function (RecStable).",
-  "interaction with the state store is disclaimed by the documentation"),
+  "known findings F18 (while a recovery expression runs, its own handler and the ones above it are still in force: the call-site obligation 'handlers out of force' in parseThrowExpr fails) and F19 (Memoize caches throw outcomes whatever handlers are in force: parseExprWrap:ensures[throw-now] fails on the hit path) are excused only inside their regions and while their witnesses reproduce; with -support-left-recursion the leader's memo replays results under other handlers (documented, DESIGN 16.3b, not decided); interaction with the state store is disclaimed by the documentation"),
  "C16": ("proof", "§7 C16",
   "parseExpr charges one unit before any work and panics with errMaxExprCnt exactly when the budget would be exceeded; every parse function keeps the counter within the budget and never decreases it; the unbounded loops of * and + carry the variant maxExprCnt-ExprCnt, the throw loop i+1, the leader loop len(input)-end.",
   "known finding F6: a memo hit is not charged (Memoize defeats the budget); ExprCnt++ treated as mathematical (wrap needs 2^64 steps)"),
@@ -36,10 +36,10 @@ CLAIMED = {
   "utf8.DecodeRune's contract is assumed; known finding F1 (U+FFFD literal at EOF)"),
  "C18": ("other", "§7 C18",
   "Thread confinement by frames: every heap store in every runtime function is checked against the function's modifies clause (frame obligations): no store to a grammar node, to a package-level variable or outside the parser's own state and fresh allocations; the only shared object is statePool, reached through Get/Put only, and a map is proved cleared before Put and never used after it.",
-  "no schedule is explored; confinement implies race freedom by a standard meta-theorem; sync.Pool is trusted to be goroutine-safe"),
+  "no schedule is explored; confinement implies race freedom by a standard meta-theorem; sync.Pool is trusted to be goroutine-safe; ASSUMES that user code blocks do not keep c.state beyond the block: the live state map is cleared and pooled when the block returns, so a block that keeps it (the project's own test/emptystate grammar returns c.state) shares it with other parsers -- defect F17 (DESIGN 16.3, witness/F17), which the frame obligations cannot see"),
  "C07": ("proof", "§7 C07",
   "Every implementation of InitialNames is verified against one First-set equation per node kind (edges across flagged-nullable prefixes, through & and ! predicates, through both arms of a recovery expression), every IsNullable against the flag it must report, and every NullableVisit against coverage obligations (must-call: each child whose flags InitialNames later reads is visited; a choice visits all alternatives). MakeFirstGraph is proved to build exactly the First edges of every rule, ComputeLeftRecursives to report left recursion exactly when a component has several members or a self-loop, buildParser to turn an analysis error or unsupported left recursion into a build error.",
-  "Tarjan SCC and cycle enumeration (scc.go, recursive closures over maps) are outside the verified subset: BOUNDED stand-in (labelled bounded, never counted as proved): StronglyConnectedComponents, FindCyclesInSCC and findLeader are run on every directed graph with <= 4 vertices (66066 graphs, several vertex orders, repeated calls) against a transitive-closure oracle by an in-package test injected with go test -overlay. PrepareGrammar is proved to analyse the rule table the generated parser builds (last definition of a name wins on both sides). 'no cycle in the First graph implies no same-offset re-entry at run time' is Ford's well-formedness theorem (meta). The First set of a throw is taken from the property (its handlers' First sets): ThrowExpr.InitialNames returns nothing, known finding F13. Defects F5a/F5b found by these obligations were repaired by fix: commits."),
+  "Tarjan SCC and cycle enumeration (scc.go, recursive closures over maps) are outside the verified subset: BOUNDED stand-in (labelled bounded, never counted as proved): StronglyConnectedComponents, FindCyclesInSCC and findLeader are run on every directed graph with <= 4 vertices (66066 graphs, several vertex orders, repeated calls) against a transitive-closure oracle by an in-package test injected with go test -overlay. PrepareGrammar is proved to analyse the rule table the generated parser builds (last definition of a name wins on both sides). 'no cycle in the First graph implies no same-offset re-entry at run time' is Ford's well-formedness theorem (meta). The First set of a throw is taken from the property (its handlers' First sets): ThrowExpr.InitialNames returns nothing, known finding F13. Defects F5a/F5b/F20 (a character class was called nullable) found by these obligations were repaired by fix: commits."),
  "C09": ("other", "§7 C09",
   "Local obligations of the grammar optimizer: cloneExpr returns a fresh node of the same kind for every expression kind (no node shared with the inlined rule), optimizeRule only inlines rules that refer to no other rule and never dereferences an undefined rule, the class/literal merge arms only build unions of non-inverted classes with equal case sensitivity and only concatenate literals of equal case sensitivity, cleanupCharClassMatcher keeps chars/ranges/classes as sets and keeps first occurrences in order.",
   "cloneExpr's copy of a character class is proved to own fresh backing arrays (slice model with backing-array identity) and to clone every child; Walk to walk every child when the visitor descends; optimize to offer every child of every kind to optimizeRule (this obligation failed for recovery expressions: defect F15, repaired by a fix: commit). The in-place slice surgery of the optimize visitor is outside the value model of slices: language preservation of the whole rewriting and the label-scope interaction of inlining (defect F7c) are not decided; Walk assumes visitors keep the tree well-formed"),
